@@ -264,6 +264,10 @@ func (p *ProcCore) PostProcessBeforeInitialization(c any, name string) (any, err
 	s := p.pb.S
 	s.Log = append(s.Log, Event{K: "before", P: p.pb.C.Rank, C: r, Snap: Snapshot(c)})
 	if p.faulty(0, r) {
+		// a failing callback hands back nothing, or (every other rank) the component together with the error: failed all the same
+		if r%2 == 1 {
+			return c, mkErr(r, "before failed")
+		}
 		return nil, mkErr(r, "before failed")
 	}
 	return c, nil
@@ -277,6 +281,9 @@ func (p *ProcCore) PostProcessAfterInitialization(c any, name string) (any, erro
 	s := p.pb.S
 	s.Log = append(s.Log, Event{K: "after", P: p.pb.C.Rank, C: r})
 	if p.faulty(1, r) {
+		if r%2 == 1 {
+			return c, mkErr(r+1, "after failed")
+		}
 		return nil, mkErr(r+1, "after failed")
 	}
 	mode := 0
